@@ -122,6 +122,103 @@ Theorem C16_unused_rules_are_listed : forall n,
 Proof. exact registry_unused. Qed.
 Print Assumptions C16_unused_rules_are_listed.
 
+(* --- the policy decision: every caller (administrators included), every rule assignment --- *)
+(* `policy_env pol c ..` : a method's acl.enforce(r, ctx) raises iff the rule expression assigned
+   to r in the loaded policy `pol` evaluates to false for caller `c` on the target made of the
+   caller's own project / user (shape of access_control.enforce, extracted fail-closed). *)
+
+(* denied by policy => refusal, database unchanged, nothing after the check runs - for every
+   policy (operator overrides such as "!" or role-specific rules included) and every caller *)
+Theorem C16_policy_denied_no_effect : forall (DB : Type) m pol c holds fires (body : DB -> nat * DB) db,
+  In m methods -> ~ In (method_id m) unguarded_allowlist ->
+  exists r, first_enforce (m_effects m) = Some r /\ documented rules m r = true /\
+   (enforce_allows pol c r = false ->
+      snd (handle m (policy_env pol c holds fires) body db) = db /\
+      (forall body', handle m (policy_env pol c holds fires) body' db =
+                     handle m (policy_env pol c holds fires) body db) /\
+      (~ In (method_id m) preguarded_allowlist ->
+       fst (handle m (policy_env pol c holds fires) body db) = 403)).
+Proof. exact policy_denied_no_effect. Qed.
+Print Assumptions C16_policy_denied_no_effect.
+
+(* "!" denies every caller and "@" allows every caller: no case for administrators *)
+Theorem C16_bang_denies_everyone : forall pol c t r,
+  plookup pol r = Some CFalse -> authorize pol c t r = false.
+Proof. exact bang_denies_everyone. Qed.
+Print Assumptions C16_bang_denies_everyone.
+
+Theorem C16_admin_no_bypass : forall (DB : Type) m pol c holds fires (body : DB -> nat * DB) db,
+  In m methods -> ~ In (method_id m) unguarded_allowlist -> c_is_admin c = true ->
+  exists r, first_enforce (m_effects m) = Some r /\
+    let pol' := override pol r CFalse in
+    snd (handle m (policy_env pol' c holds fires) body db) = db /\
+    (~ In (method_id m) preguarded_allowlist ->
+     fst (handle m (policy_env pol' c holds fires) body db) = 403).
+Proof. exact admin_no_bypass. Qed.
+Print Assumptions C16_admin_no_bypass.
+
+(* a role-specific rule denies every caller without the role, whatever is_admin says *)
+Theorem C16_role_rule_denies : forall pol c t r role,
+  plookup pol r = Some (CRole role) ->
+  (forall x, In x (c_roles c) -> lower x <> lower role) ->
+  authorize pol c t r = false.
+Proof. exact role_rule_denies. Qed.
+Print Assumptions C16_role_rule_denies.
+
+(* how expressions are evaluated (one step; fuel bounds nesting and rule references) *)
+Theorem C16_policy_evaluation : forall f pol c t,
+  eval (S f) pol c t CTrue = true /\
+  eval (S f) pol c t CFalse = false /\
+  (forall a b, eval (S f) pol c t (CAnd a b) = eval f pol c t a && eval f pol c t b) /\
+  (forall a b, eval (S f) pol c t (COr a b) = eval f pol c t a || eval f pol c t b) /\
+  (forall a, eval (S f) pol c t (CNot a) = negb (eval f pol c t a)) /\
+  (forall r, eval (S f) pol c t (CRole r) = existsb (fun x => String.eqb (lower x) (lower r)) (c_roles c)) /\
+  (forall n, eval (S f) pol c t (CRule n) =
+             match plookup pol n with Some k => eval f pol c t k | None => false end) /\
+  (forall k m, eval (S f) pol c t (CCred k m) = String.eqb (match_text t m) (cred_text c k)).
+Proof. exact eval_equations. Qed.
+Print Assumptions C16_policy_evaluation.
+
+(* all_projects / publicize: their own rule, for every caller and policy *)
+Theorem C16_policy_conditional_denied : forall (DB : Type) m pol c holds fires (body : DB -> nat * DB) db r cd,
+  In (r, cd) (conds_before_data (m_effects m)) -> holds cd = true -> enforce_allows pol c r = false ->
+  snd (handle m (policy_env pol c holds fires) body db) = db /\
+  (forall body', handle m (policy_env pol c holds fires) body' db =
+                 handle m (policy_env pol c holds fires) body db).
+Proof. exact policy_conditional_denied. Qed.
+Print Assumptions C16_policy_conditional_denied.
+
+(* the registered defaults (generated): admin-only rules allow exactly is_admin callers,
+   admin_or_owner allows every caller on his own target *)
+Theorem C16_default_admin_only : forall c t n,
+  rule_kind rules n = Some AdminOnly -> authorize default_policy c t n = c_is_admin c.
+Proof. exact default_admin_only_rule. Qed.
+Print Assumptions C16_default_admin_only.
+
+Theorem C16_default_admin_or_owner : forall c, enforce_allows default_policy c "admin_or_owner" = true.
+Proof. exact default_admin_or_owner. Qed.
+Print Assumptions C16_default_admin_or_owner.
+
+(* default policy, any non-admin caller: listing across projects and scope=public change nothing *)
+Theorem C16_default_policy_all_projects : forall (DB : Type) m c holds fires (body : DB -> nat * DB) db,
+  In m methods -> m_all_projects m = true -> c_is_admin c = false ->
+  (forall cd, is_all_projects_cond cd = true -> holds cd = true) ->
+  snd (handle m (policy_env default_policy c holds fires) body db) = db /\
+  (forall body', handle m (policy_env default_policy c holds fires) body' db =
+                 handle m (policy_env default_policy c holds fires) body db).
+Proof. exact default_policy_all_projects. Qed.
+Print Assumptions C16_default_policy_all_projects.
+
+Theorem C16_default_policy_publicize : forall (DB : Type) m c holds fires (body : DB -> nat * DB) db,
+  In m methods -> ~ In (method_id m) unguarded_allowlist ->
+  m_takes_scope m = true -> (m_verb m = POST \/ m_verb m = PUT) ->
+  c_is_admin c = false -> holds CScopePublic = true ->
+  snd (handle m (policy_env default_policy c holds fires) body db) = db /\
+  (forall body', handle m (policy_env default_policy c holds fires) body' db =
+                 handle m (policy_env default_policy c holds fires) body db).
+Proof. exact default_policy_publicize. Qed.
+Print Assumptions C16_default_policy_publicize.
+
 (* --- state-changing requests: every request text, every field combination ----------- *)
 
 (* execution PUT: an engine call is issued only for PAUSED (pause), RUNNING (resume) or a
@@ -276,6 +373,14 @@ Example C16_nonvacuous :
    run effs (mkEnv (fun _ => true) (fun _ => false) (fun _ => false)) 0 body 7 = (403, 7) /\
    run effs (mkEnv (fun _ => false) (fun _ => false) (fun _ => false)) 0 body 7 = (200, 8) /\
    blocked effs (mkEnv (fun _ => true) (fun _ => false) (fun _ => false)) = true) /\
+  (let admin := mkCaller true ["admin"] "p1" "u1" in
+   let member := mkCaller false ["Member"] "p1" "u1" in
+   enforce_allows (override default_policy "executions:delete" CFalse) admin "executions:delete" = false /\
+   enforce_allows default_policy admin "executions:list:all_projects" = true /\
+   enforce_allows default_policy member "executions:list:all_projects" = false /\
+   enforce_allows default_policy member "executions:delete" = true /\
+   enforce_allows (override default_policy "tasks:get" (CRole "member")) member "tasks:get" = true /\
+   enforce_allows (override default_policy "tasks:get" (CRole "member")) admin "tasks:get" = false) /\
   o_call (exec_put true RUNNING "PAUSED" false false) = PauseWf /\
   o_call (exec_put true PAUSED "RUNNING" false true) = ResumeWf true /\
   o_call (exec_put true RUNNING "ERROR" false false) = StopWf ERROR /\
